@@ -226,6 +226,7 @@ type cmpCtx struct {
 	storage atree.SlabStorage
 	cb      *Callbacks
 	visited int
+	visits  int // containers compared so far: alternates the order of lookups and traversal
 }
 
 // valueEqualsNode compares a library value obtained through the API with the model.
@@ -270,34 +271,52 @@ func (c *cmpCtx) arrayEqualsNode(a *atree.Array, n *Node, path string) error {
 		return fmt.Errorf("%s: array value id %s != recorded %s", path, a.ValueID(), n.VID)
 	}
 	// positional access
-	for i, e := range n.Elems {
-		v, err := a.Get(uint64(i))
-		if err != nil {
-			return fmt.Errorf("%s[%d]: Get failed: %v", path, i, err)
+	positional := func() error {
+		for i, e := range n.Elems {
+			v, err := a.Get(uint64(i))
+			if err != nil {
+				return fmt.Errorf("%s[%d]: Get failed: %v", path, i, err)
+			}
+			if err := c.valueEqualsNode(v, e, fmt.Sprintf("%s[%d]", path, i)); err != nil {
+				return err
+			}
 		}
-		if err := c.valueEqualsNode(v, e, fmt.Sprintf("%s[%d]", path, i)); err != nil {
-			return err
-		}
+		return nil
 	}
 	// traversal
-	i := 0
-	err := a.IterateReadOnly(func(v atree.Value) (bool, error) {
-		if i >= len(n.Elems) {
-			return false, fmt.Errorf("%s: iteration yields more than %d elements", path, len(n.Elems))
+	traversal := func() error {
+		i := 0
+		err := a.IterateReadOnly(func(v atree.Value) (bool, error) {
+			if i >= len(n.Elems) {
+				return false, fmt.Errorf("%s: iteration yields more than %d elements", path, len(n.Elems))
+			}
+			if err := c.shallowEquals(v, n.Elems[i], fmt.Sprintf("%s<iter %d>", path, i)); err != nil {
+				return false, err
+			}
+			i++
+			return true, nil
+		})
+		if err != nil {
+			return err
 		}
-		if err := c.shallowEquals(v, n.Elems[i], fmt.Sprintf("%s<iter %d>", path, i)); err != nil {
-			return false, err
+		if i != len(n.Elems) {
+			return fmt.Errorf("%s: iteration yields %d elements, model has %d", path, i, len(n.Elems))
 		}
-		i++
-		return true, nil
-	})
-	if err != nil {
+		return nil
+	}
+	// the order alternates from one container to the next: whichever runs first runs on whatever the storage has
+	// loaded so far (nothing, on a cold storage), the other on slabs the first has brought in
+	c.visits++
+	if c.visits%2 == 0 {
+		if err := traversal(); err != nil {
+			return err
+		}
+		return positional()
+	}
+	if err := positional(); err != nil {
 		return err
 	}
-	if i != len(n.Elems) {
-		return fmt.Errorf("%s: iteration yields %d elements, model has %d", path, i, len(n.Elems))
-	}
-	return nil
+	return traversal()
 }
 
 // shallowEquals compares scalars fully and containers by kind, count and value id.
@@ -345,18 +364,34 @@ func (c *cmpCtx) mapEqualsNode(m *atree.OrderedMap, n *Node, path string) error 
 	if m.ValueID() != n.VID {
 		return fmt.Errorf("%s: map value id %s != recorded %s", path, m.ValueID(), n.VID)
 	}
-	for _, e := range n.sortedEntries() {
-		kv := scalarValue(e.Key)
-		v, err := m.Get(c.cb.Compare, c.cb.HashInput, kv)
-		if err != nil {
-			return fmt.Errorf("%s{%s}: Get failed: %v", path, e.Key, err)
+	c.visits++
+	order := c.visits % 4 // 0: traversal first, Has before Get; 1: Get, Has, traversal; 2: traversal first, Get before Has; 3: Has, Get, traversal
+	lookups := func() error {
+		for _, e := range n.sortedEntries() {
+			kv := scalarValue(e.Key)
+			if order == 0 || order == 3 {
+				ok, err := m.Has(c.cb.Compare, c.cb.HashInput, kv)
+				if err != nil || !ok {
+					return fmt.Errorf("%s{%s}: Has (before any Get) = %v, %v", path, e.Key, ok, err)
+				}
+			}
+			v, err := m.Get(c.cb.Compare, c.cb.HashInput, kv)
+			if err != nil {
+				return fmt.Errorf("%s{%s}: Get failed: %v", path, e.Key, err)
+			}
+			if err := c.valueEqualsNode(v, e.Val, fmt.Sprintf("%s{%s}", path, e.Key)); err != nil {
+				return err
+			}
+			ok, err := m.Has(c.cb.Compare, c.cb.HashInput, kv)
+			if err != nil || !ok {
+				return fmt.Errorf("%s{%s}: Has = %v, %v", path, e.Key, ok, err)
+			}
 		}
-		if err := c.valueEqualsNode(v, e.Val, fmt.Sprintf("%s{%s}", path, e.Key)); err != nil {
+		return nil
+	}
+	if order == 1 || order == 3 {
+		if err := lookups(); err != nil {
 			return err
-		}
-		ok, err := m.Has(c.cb.Compare, c.cb.HashInput, kv)
-		if err != nil || !ok {
-			return fmt.Errorf("%s{%s}: Has = %v, %v", path, e.Key, ok, err)
 		}
 	}
 	seen := make(map[string]bool, len(n.M))
@@ -384,6 +419,9 @@ func (c *cmpCtx) mapEqualsNode(m *atree.OrderedMap, n *Node, path string) error 
 	}
 	if len(seen) != len(n.M) {
 		return fmt.Errorf("%s: iteration yields %d keys, model has %d", path, len(seen), len(n.M))
+	}
+	if order == 0 || order == 2 {
+		return lookups()
 	}
 	return nil
 }
